@@ -10,7 +10,7 @@ import warnings
 from props import gen_harness as G
 
 STDLIB = set(sys.stdlib_module_names)
-ALLOWED_THIRD = {"httpx", "cattrs", "attrs", "attr", "typing_extensions"}
+ALLOWED_THIRD = {"httpx", "cattrs"}  # exactly the documented runtime dependencies (their own dependencies — attrs, typing_extensions — are not licence to import them)
 
 
 def parse(path):
